@@ -146,6 +146,11 @@ def version_universe(tier, rng):
 # the small exhaustive universe for interval algebra and its probe set (neighbours of every member)
 U6 = [V(1, 0, 0, ('a',)), V(1, 0, 0, ('a', 0)), V(1, 0, 0), V(1, 0, 1, (0,)), V(1, 0, 1), V(2, 0, 0)]
 U8 = U6 + [V(1, 0, 0, (0,)), V(2, 0, 0, ('rc', 1))]
+# every power of two a component can be (and its two neighbours): thresholds of packed / shifted / masked fast paths sit there, whether or not the
+# source spells them as a literal (`1 << (u64::BITS / 3)`)
+POWERS = [1 << k for k in range(2, 50) if (1 << k) + 1 <= MAX]
+def power_values():
+    return sorted({m + d for m in POWERS for d in (-1, 0, 1)})
 def magic_universes():
     """small universes around each newly mentioned constant m: versions that differ by m in one component, and the pairs a
     positional packing with radix m would confuse ((0,m,0) / (1,0,0); (1,0,m) / (1,1,0))"""
